@@ -203,5 +203,90 @@ def run(rep: Report, tier: str) -> None:
     from sa.checks import c08
     from sa import sqlx as _sqlx
     c08.iso_year_rule(rep, {k.lower(): v for k, v in _sqlx.load_macros(P).items()}, "R09.4", only={"vtl_interval_to_period"})
+    # ---- R09.5: integer arithmetic in the conversion macros uses integer division ----
+    from sa import intdiv
+    rep.rule("R09.5", "conversion macros: no `/` between integer-typed operands (DuckDB `/` is float division: period numbers would be written '2.0')")
+    ndiv = intdiv.rule(rep, P, "R09.5", only_macros={k.lower() for k in macros if "_to_" in k.lower() or "cast" in k.lower() or "parse" in k.lower() or "normalize" in k.lower()})
+    rep.floor("R09.5 divisions in conversion macros", ndiv, 1)
+    # ---- R09.6: Time -> Time_Period maps exactly the intervals that ARE a period, to that period (calendar decision table) ----
+    rep.rule("R09.6", "vtl_interval_to_period: interval == [start(P), end(P)] of a regular period P  <=>  result is P; every other interval raises")
+    _interval_to_period_table(P, rep)
     rep.assumptions = ["docs/data_types.rst is the oracle for which conversions exist",
                        "type names reach _cast_expr spelled as SCALAR_TYPES keys (target) and class names or keys (source)"]
+
+
+def _interval_to_period_table(P: Program, rep: Report) -> None:  # noqa: C901
+    import calendar
+    import datetime as dt
+    from sa import sqlconc, sqlexpr, sqlx
+    macros = sqlx.load_macros(P)
+    if "vtl_interval_to_period" not in macros:
+        raise AnalysisError("anchor vanished: macro vtl_interval_to_period")
+    mac = macros["vtl_interval_to_period"]
+    days = set()
+    for y in (2019, 2020, 2021):
+        for m in range(1, 13):
+            days.add(dt.date(y, m, 1))
+            days.add(dt.date(y, m, calendar.monthrange(y, m)[1]))
+        days.add(dt.date(y, 3, 15))
+        days.add(dt.date(y, 8, 17))
+        for d0 in (dt.date(y, 1, 1), dt.date(y, 12, 31)):
+            mon = d0 - dt.timedelta(days=d0.weekday())
+            for k in (-7, 0, 7):
+                days.add(mon + dt.timedelta(days=k))
+                days.add(mon + dt.timedelta(days=k + 6))
+    grid = sorted(days)
+
+    def oracle(d1: dt.date, d2: dt.date):
+        if d1 == d2:
+            return (d1.year, "D", d1.timetuple().tm_yday)
+        if d1.year == d2.year:
+            y = d1.year
+            if (d1, d2) == (dt.date(y, 1, 1), dt.date(y, 12, 31)):
+                return (y, "A", 1)
+            if (d1, d2) == (dt.date(y, 1, 1), dt.date(y, 6, 30)):
+                return (y, "S", 1)
+            if (d1, d2) == (dt.date(y, 7, 1), dt.date(y, 12, 31)):
+                return (y, "S", 2)
+            if d1.day == 1 and d1.month in (1, 4, 7, 10) and d2 == dt.date(y, d1.month + 2, calendar.monthrange(y, d1.month + 2)[1]):
+                return (y, "Q", (d1.month - 1) // 3 + 1)
+            if d1.day == 1 and d2 == dt.date(y, d1.month, calendar.monthrange(y, d1.month)[1]):
+                return (y, "M", d1.month)
+        if d1.isoweekday() == 1 and d2 == d1 + dt.timedelta(days=6):
+            iy, iw, _ = d1.isocalendar()
+            return (iy, "W", iw)
+        return None
+
+    def parse_period(s_: str):
+        m = re.fullmatch(r"(\d{4})-?([ASQMWD])?(\d{1,3})?", s_.strip())
+        if not m:
+            return ("malformed", s_)
+        ind = m.group(2) or "A"
+        return (int(m.group(1)), ind, int(m.group(3)) if m.group(3) else 1)
+    n = n_period = 0
+    shown = 0
+    for d1 in grid:
+        for d2 in grid:
+            if d2 < d1 or (d2 - d1).days > 800:
+                continue
+            n += 1
+            want = oracle(d1, d2)
+            iv = f"{d1.isoformat()}/{d2.isoformat()}"
+            try:
+                got = sqlconc.call_macro(macros, "vtl_interval_to_period", iv)
+                got_p = parse_period(str(got)) if got is not None else ("null",)
+            except sqlconc.SqlError:
+                got_p = None
+            except sqlexpr.ParseError as e:
+                raise AnalysisError(f"R09.6: vtl_interval_to_period is outside the SQL evaluator's language: {e}")
+            if want is not None:
+                n_period += 1
+                rep.instance("R09.6", f"period/{iv}", nontrivial=True, sample={"interval": iv, "period": want})
+            if got_p != want and shown < 12:
+                shown += 1
+                rep.add(Finding("R09.6", f"R09.6/{iv}", mac.file, mac.line, "macro:vtl_interval_to_period",
+                                f"cast of the Time value {iv} to time_period gives {got_p if got_p is not None else 'an error'}; by the calendar it is "
+                                + (f"the period {want}" if want is not None else "not a regular period (A, S, Q, M, W, D) and must be rejected")))
+    rep.instance("R09.6", "intervals-evaluated", nontrivial=True, sample={"intervals": n, "of which periods": n_period})
+    rep.floor("R09.6 intervals evaluated", n, 3000)
+    rep.floor("R09.6 intervals that are periods", n_period, 100)
